@@ -4,12 +4,13 @@ LEVEL = 'other'
 CONTRACT_MODULES = ['contracts.evals', 'contracts.calc', 'contracts.regions', 'contracts.catalogs', 'contracts.forecasts']
 CONE = ['csep.core.poisson_evaluations._t_test_ndarray', 'csep.core.poisson_evaluations.paired_t_test', 'csep.core.poisson_evaluations.w_test', 'csep.core.poisson_evaluations._w_test_ndarray',
         'csep.core.forecasts.GriddedForecast.target_event_rates',
+        'lemma:C08:_t_test_ndarray is antisymmetric in the two forecasts', 'lemma:C08:a forecast compared with itself has zero information gain',
         'csep.core.forecasts.MarkedGriddedDataSet.get_magnitude_index']
 ORACLE_MODULES = ['rt.oracles_eval', 'rt.oracles_contracts']
 BOUNDED = os.path.exists(os.path.join(os.path.dirname(__file__), '..', 'rt', 'bounded_C08.py'))
 FLOAT_MODEL = 'R; log, sqrt, t.ppf uninterpreted'
 TRUSTED = ['scipy.stats.t.ppf, numpy.log/sqrt/power element-wise', 'pyvc engine, z3 5.1']
-ASSUMPTIONS = ['antisymmetry / self-comparison follow from the proved formulas by algebra (not re-proved per run)', '_w_test_ndarray is proved against the Wilcoxon signed-rank definition on the non-zero differences (midranks of |d| as the assumed contract of scipy.stats.rankdata(method=average), numpy.unique(return_counts) as groups with their sizes, tie correction sum_groups c(c^2-1) == sum_i (c_i^2-1) by the weighted fibre-sum lemma, normal approximation without continuity correction, p = 2 sf(|z|) in [0,1] from the assumed range of norm.sf); invariance of the W-test under swapping the forecasts, the binary T variant and definedness with the installed dependency versions are bounded only', 'GriddedForecast.target_event_rates is proved for lattice regions satisfying RI with >= 2 rows and columns and equally spaced magnitude edges']
+ASSUMPTIONS = ['antisymmetry (gain and t statistic negated, interval mirrored, for samples with a non-zero standard deviation) and the zero gain of a self-comparison are lemmas over the proved contract of _t_test_ndarray, re-proved on every run (Lean: L4_sum_neg)', '_w_test_ndarray is proved against the Wilcoxon signed-rank definition on the non-zero differences (midranks of |d| as the assumed contract of scipy.stats.rankdata(method=average), numpy.unique(return_counts) as groups with their sizes, tie correction sum_groups c(c^2-1) == sum_i (c_i^2-1) by the weighted fibre-sum lemma, normal approximation without continuity correction, p = 2 sf(|z|) in [0,1] from the assumed range of norm.sf); invariance of the W-test under swapping the forecasts, the binary T variant and definedness with the installed dependency versions are bounded only', 'GriddedForecast.target_event_rates is proved for lattice regions satisfying RI with >= 2 rows and columns and equally spaced magnitude edges']
 EXPLANATION = '_t_test_ndarray: information gain (eq. 17), variance (eq. 18), t statistic, critical value and interval exactly as in Rhoades et al. (2011), for rate vectors of arbitrary length; paired_t_test / w_test: both forecasts asked with the same scale flag, forecast before benchmark, N = observed count, W-test sample = log-rate differences with null median (N_A-N_B)/N, result fields; target_event_rates: rate of event e = (scaled) rate of the bin the region / magnitude lookups attribute it to, total = sum of (scaled) rates, forecast unmodified'
 TECHNIQUE = 'contracts on the real functions (kernel formulas, public plumbing with modular use of the kernel contracts, target_event_rates over the region and bin1d_vec contracts), z3; bounded run-time contracts for the public tests (incl. that they return with the installed scipy/numpy)'
 LEVEL_TEXT = 'other: T-test formulas, public T/W plumbing and target-event rates proved; W-test kernel proved against the signed-rank definition; swap invariance of W, binary variant and definedness are bounded only'
